@@ -227,9 +227,10 @@ class Machine:
     """Dynamic reference model.  emit() appends the event to the thread's
     stream, applies it to the reference state and records expected values."""
 
-    def __init__(self, world, lint=False):
+    def __init__(self, world, lint=False, on_record=None):
         self.w = world
         self.lint = lint
+        self.on_record = on_record   # optional callback(machine) after every recorded instant
         self.now = 0                 # global ns since first event
         self.expect = Expect()
         self.offgrammar = None       # time of the first step outside the task runtimes' grammar (C20)
@@ -716,6 +717,8 @@ class Machine:
                     else:
                         mv = None
                     ex.set(("cpu", r, 100 + k), t, single(mv))
+        if self.on_record is not None:
+            self.on_record(self)
         # abstract state for coverage accounting
         for l in w.looms:
             for cpu in l.cpus + [l.vcpu]:
